@@ -60,9 +60,16 @@ def gen_content(rng, maxs=4, maxv=5, minv=1):
 # ------------------------------------------------------------------ direct calls of the four implementations
 def gen_direct(rng, tier):
     n = 500 if tier == "quick" else 20000
-    for _ in range(n):
+    for t in range(n):
         c = gen_content(rng)
         c["with_anc"] = rng.random() < 0.6
+        if t % 10 == 7:
+            # a fixed share: a haplotype lists an allele its variant does not have (a strand-flipped or mismatched .hap file): it can
+            # be carried by no strand – refusing is fine, reporting it anywhere is not
+            h = rng.choice(c["haps"])
+            v = rng.choice(h["vars"])
+            v[1] = rng.choice(["N", "TT", "t"])
+            c["absent_allele"] = h["id"]
         yield c
 
 
@@ -102,6 +109,22 @@ def build_objects(case, with_anc):
 def impl_direct(case):
     g, hp = build_objects(case, case["with_anc"])
     out = []
+    nowhere = [[False, False] for _ in case["samples"]]
+    if case.get("absent_allele"):
+        # either transform may refuse (recorded as "reported nowhere", with a flag); anything it does report is judged as always
+        try:
+            r = hp.transform(g)
+        except Exception:  # noqa
+            r = None
+        for hi, h in enumerate(case["haps"]):
+            try:
+                single = np.asarray(hp.data[h["id"]].transform(g)).astype(bool).tolist()
+            except Exception:  # noqa
+                if h["id"] != case["absent_allele"]:
+                    raise
+                single = nowhere
+            out.append({"single": single, "set": nowhere if r is None else np.asarray(r.data[:, hi, :]).astype(bool).tolist()})
+        return {"haps": out, "records": None, "set_refused": r is None}
     r = hp.transform(g)
     rec = {"ids": [str(x) for x in r.variants["id"]], "chroms": [str(x) for x in r.variants["chrom"]], "starts": [int(x) for x in r.variants["pos"]], "samples": list(r.samples)}
     for hi, h in enumerate(case["haps"]):
@@ -126,7 +149,18 @@ def model_req_direct(case):
 
 
 def model_obs_direct(case, resp):
+    if case.get("absent_allele"):
+        return {"haps": resp["haps"], "records": None}
     return {"haps": resp["haps"], "records": {"ids": [h["id"] for h in case["haps"]], "chroms": [h["chrom"] for h in case["haps"]], "starts": [h["start"] for h in case["haps"]], "samples": case["samples"]}}
+
+
+def equal_direct(a, b):
+    if "error" in a:
+        return False
+    if a.get("set_refused"):
+        # the whole set was refused (a haplotype lists an allele its variant does not have): the single-haplotype answers remain
+        return [h["single"] for h in a["haps"]] == [h["single"] for h in b["haps"]]
+    return C.canon({k: v for k, v in a.items() if k != "set_refused"}) == C.canon(b)
 
 
 def carries(case, h, s, k, with_anc):
@@ -148,10 +182,14 @@ def oracle_direct(case, obs):
             for k in (0, 1):
                 want = carries(case, h, s, k, case["with_anc"])
                 for impl_name in ("single", "set"):
+                    if impl_name == "set" and obs.get("set_refused"):
+                        continue  # the set as a whole was refused because of the haplotype with the absent allele
                     got = obs["haps"][hi][impl_name][s][k]
                     if got != want:
                         return f"{impl_name} transform of {h['id']} ({h['vars']}, ancestry {h['ancestry'] if case['with_anc'] else None}) reports {int(got)} for sample {s} strand {k}; the strand {'carries' if want else 'does not carry'} it"
     r = obs["records"]
+    if r is None:
+        return None
     if r["ids"] != [h["id"] for h in case["haps"]] or r["chroms"] != [h["chrom"] for h in case["haps"]] or r["starts"] != [h["start"] for h in case["haps"]] or r["samples"] != case["samples"]:
         return f"output records {r} do not carry the haplotypes' IDs/chromosomes/starts in .hap order with samples in input order"
     return None
@@ -396,6 +434,7 @@ CHECK = Check(
             impl=impl_direct,
             model_req=model_req_direct,
             model_obs=model_obs_direct,
+            equal=equal_direct,
             oracle=oracle_direct,
             describe=describe_direct,
             nontrivial=lambda c, o: C.jdump(c) if isinstance(o, dict) and "haps" in o and any(any(any(r) for r in h["set"]) for h in o["haps"]) else None,
